@@ -381,6 +381,9 @@ func (rt *Runtime) validator(ctx context.Context, database, username, password s
 		}
 	}
 	c.rec("validator", fmt.Sprintf("db=%q user=%q pw=%q -> %s", database, username, password, out))
+	// (a second schedule point, before the verdict is handed back: Close can be
+	// placed between the moment the validator was entered and its return)
+	rt.K.Yield(c.task, "cb.validator.ret")
 	c.retainMap("client parameters as the auth strategy received them", wire.ClientParameters(ctx))
 	c.retain("password", password)
 	c.retain("auth-user", username)
@@ -557,6 +560,11 @@ func (rt *Runtime) buildServer() (*wire.Server, error) {
 			ctx = context.WithValue(ctx, mwKey(i), i+1)
 			if mw.Cancel {
 				ctx, c.cancelSession = context.WithCancel(ctx)
+			}
+			if mw.Done {
+				ended, cancel := context.WithCancel(ctx)
+				cancel()
+				ctx = ended
 			}
 			return ctx, nil
 		}))
